@@ -55,6 +55,16 @@ fn c11_check(c: &HistCase, st: &mut Stats) -> CheckResult {
             // (a) history vs fresh object
             let mut fresh = build_native_like(p, be);
             let rawf = calls::exec(&mut fresh, call)?;
+            // ordered comparison (T/F/u abstraction, order kept): the order of the answers only depends on
+            // the diagrams' structure (and on the seed for Rand), never on handle numbers or caches
+            let o_hist = calls::abstract_raw(&raw, false);
+            let o_fresh = calls::abstract_raw(&rawf, false);
+            if o_hist != o_fresh {
+                return Err(format!(
+                    "call {i} {call:?} after history {:?} answered {o_hist:?} (in this order) but a freshly built object answers {o_fresh:?}",
+                    c.calls[..i].iter().map(|c| c.kind()).collect::<Vec<_>>()
+                ));
+            }
             let a_hist = calls::abstract_raw(&raw, true);
             let a_fresh = calls::abstract_raw(&rawf, true);
             if a_hist != a_fresh {
@@ -344,6 +354,15 @@ pub fn c14(tier: Tier) -> PropSpec {
                     .boxed()
             },
             c14_check,
+        ),
+        // the web service's real database layer (SimplifiedAdf <-> Adf through the MongoDB stub): problems
+        // are parsed, stored, loaded and solved; a tenth of them have 11..14 statements
+        Part::with_shrink(
+            "web-storage",
+            tier.pick(150, 1500),
+            40,
+            crate::props::web::web_case_storage,
+            crate::props::web::c16_check_entry,
         ),
         Part::with_shrink(
             "cli-export",
